@@ -232,6 +232,10 @@ fn scale_entries<R: Rng>(rng: &mut R, beh: &Value) -> (Vec<E>, Vec<i64>) {
 
 /// A stream of the wire-width hardware, possibly with faults (no truth available: E3 recomputes the requirement).
 fn random_entries<R: Rng>(rng: &mut R) -> Vec<E> {
+    random_entries_with(rng, None)
+}
+
+fn random_entries_with<R: Rng>(rng: &mut R, force_fault: Option<u32>) -> Vec<E> {
     let mut v = Vec::new();
     // leftovers of a previous run before the counter-0 marker
     for _ in 0..rng.gen_range(0..4) {
@@ -242,7 +246,8 @@ fn random_entries<R: Rng>(rng: &mut R) -> Vec<E> {
         }
     }
     let wraps = rng.gen_range(0..=8u32);
-    let fault = rng.gen_range(0..12);
+    let drawn = rng.gen_range(0..12);
+    let fault = force_fault.unwrap_or(drawn);
     let nmk = 2 * wraps + rng.gen_range(0..2);
     let fault_at = if nmk > 0 { rng.gen_range(0..nmk) } else { 0 };
     for k in 0..nmk {
@@ -270,7 +275,26 @@ fn random_entries<R: Rng>(rng: &mut R) -> Vec<E> {
         }
     }
     match fault {
-        5 => { let p = rng.gen_range(0..=v.len()); v.insert(p, E::Raw(vec![rng.gen(), rng.gen(), rng.gen(), rng.gen_range(0..0x80)])); } // corrupted word
+        5 => {
+            // corrupted word: the top byte is one bit away from a marker's (0xFF) or a timestamp's (0x80 | channel),
+            // or any other byte that is neither (0xFE, which starts a scalers block, is fault 9)
+            let valid = |t: u8| t == 0xFF || t == 0xFE || (0x80..0x80 + 59).contains(&t);
+            static NEXT_BIT: std::sync::atomic::AtomicUsize = std::sync::atomic::AtomicUsize::new(0);
+            let top = loop {
+                let t: u8 = match rng.gen_range(0..4) {
+                    // every one-bit neighbour of the marker byte in turn
+                    0 | 1 => 0xFF ^ (1 << (NEXT_BIT.fetch_add(1, std::sync::atomic::Ordering::Relaxed) % 8)),
+                    2 => (0x80 | rng.gen_range(0..59u8)) ^ (1 << rng.gen_range(0..8)),
+                    _ => rng.gen(),
+                };
+                if !valid(t) {
+                    break t;
+                }
+            };
+            let low: [u8; 3] = if rng.gen_bool(0.5) { [1, 0, 0x80] } else { [rng.gen(), rng.gen(), rng.gen()] };
+            let p = rng.gen_range(0..=v.len());
+            v.insert(p, E::Raw(vec![low[0], low[1], low[2], top]));
+        }
         9 => {
             // a scaler block whose header word has one bit flipped / its low byte changed, followed by plenty of data
             let mut b = scaler_block(rng);
@@ -309,12 +333,17 @@ pub fn run(runner: &mut Runner, bin: &Path, work: &Path, behaviours: Option<&str
         }
     }
     for ci in 0..count {
-        let nboards = rng.gen_range(1..=4usize);
+        // every sixth scenario: one board whose only fault is a corrupted word (so that nothing else explains a failure)
+        let single = ci % 6 == 5;
+        let nboards = if single { 1 } else { rng.gen_range(1..=4usize) };
         let mut ids: Vec<usize> = (1..=4).collect();
         ids.shuffle(&mut rng);
         let mut boards = BTreeMap::new();
         for &b in &ids[..nboards] {
-            let bytes = if rng.gen_bool(0.08) {
+            let bytes = if single {
+                let e = random_entries_with(&mut rng, Some(5));
+                to_bytes(&mut rng, &e, true)
+            } else if rng.gen_bool(0.08) {
                 { let k = rng.gen_range(0..30); random_stream(&mut rng, k, false) }
             } else {
                 let e = random_entries(&mut rng);
